@@ -242,9 +242,23 @@ impl fmt::Display for Formatted<'_, Number> {
                 self.format.precision
             });
 
-            if frac != 0. {
-                let max_decimals = 16 - whole.log10().ceil() as usize;
-                for _ in 1..max_decimals.min(self.format.precision) {
+            // Number of integer digits (powers of ten up to 1e22 are exact).
+            let mut int_digits = 0_usize;
+            let mut pow = 1.;
+            while pow <= whole && int_digits < 17 {
+                pow *= 10.;
+                int_digits += 1;
+            }
+            let places = 16_usize
+                .saturating_sub(int_digits)
+                .min(self.format.precision);
+            if frac != 0. && places == 0 {
+                // No decimals allowed: round to the nearest integer.
+                if frac.abs() >= 0.5 {
+                    whole += 1.;
+                }
+            } else if frac != 0. {
+                for _ in 1..places {
                     frac *= 10.;
                     write!(dec, "{}", (frac as i8).abs())?;
                     frac = frac.fract();
